@@ -45,6 +45,14 @@ CHECKS = {
         "charge subset through all arithmetic (reflected and power forms) and every exported elementwise function. The dense form of each result must equal the numpy operation on the "
         "dense operands exactly; a raise is a tallied refusal; the three entry points must agree in outcome.",
    note="Trusted: numpy ufuncs; harness embedding. norm uses rel. tolerance 1e-12. log/log2/log10 raise (RecursionError) on every entry point: tallied as refusals, consistent across entry points."),
+ "C16": dict(engine="E-enum", design_ref="DESIGN.md 5 C16",
+   technique="exhaustive enumeration of classes x symmetry-argument variants x index structures x charges x stored sectors x dense labelings on the real constructors; reference = the harness's own expectation and projection",
+   text="For every symmetry, abelian and fermionic, every index structure with n<=3, direction pattern, total charge and stored-sector pattern, the direct constructor, from_blocks, from_fill_fn, "
+        "random and from_dense (classmethod and utils helper) are called on the static class and on the dynamic class with the symmetry as string / object / omitted / mismatching, with the "
+        "charge given and omitted, and each result is compared (symmetry, charge, index tables, sectors, blocks, dtype) with the harness's expectation; calls that must be refused must raise. "
+        "Dense arrays under sorted, reversed, interleaved and seeded per-axis labelings are converted to blocks and compared with the harness's projection onto the conserving sectors "
+        "(reordered by charge, original position); to_dense is compared with the harness embedding; non-zero entries outside the conserving sectors are ignored / refused as documented.",
+   note="Trusted: harness embedding / projection. from_blocks is compared on the charges that occur in the given blocks (it cannot know others)."),
 }
 
 _ALL = ["C%02d" % i for i in range(1, 21)]
